@@ -77,6 +77,8 @@ func All() []*Instance {
 		h4([]string{"literalscanner-scansql"}, []string{"newscanner-scansql"}),
 		h4([]string{"literalscanner-scansql"}, []string{"literalscanner-scansql"}),
 		h4([]string{"literalscanner-scan"}, []string{"newscanner-scan"}),
+		h4([]string{"literalscanner-scan-rich"}, []string{"newscanner-scan-rich"}),
+		h4([]string{"literalscanner-scan-rich"}, []string{"literalscanner-scan-rich"}),
 		h4([]string{"literalscanner-scansql"}, []string{"newscanner-scan", "newscanner-scansql"}),
 		h4([]string{"suggest-SELCT"}, []string{"suggest-SELCT"}),
 		h4([]string{"suggest-SELCT"}, []string{"suggest-FORM", "suggest-SELCT"}),
